@@ -184,7 +184,8 @@ fn main() {
     sweep::<i128>(&run, "i128", &z7, &[(1, 2), (2, 2)], &flags);
     sweep::<BigInt>(&run, "BigInt", &z7, &[(2, 1), (2, 2)], &flags);
     sweep::<i64>(&run, "i64", &z4, &[(2, 3), (3, 2)], &flags);
-    sweep::<i64>(&run, "i64", &z3, &[(3, 3)], &two_flags);
+    sweep::<i64>(&run, "i64", &z3, &[(3, 3)], &flags);
+    sweep::<i64>(&run, "i64", &z4, &[(3, 3)], &two_flags);
     let zwide: Vec<Z> = [0, 1, 2, 3, 4, 6, -2, -6, 12].map(z).to_vec();
     sweep::<i64>(&run, "i64", &zwide, &[(2, 2)], &flags);
     // ---- finite fields ----------------------------------------------------------------------------------
